@@ -16,6 +16,7 @@ import (
 	"verifharness/e4"
 	"verifharness/e5"
 	"verifharness/e6"
+	"verifharness/e7"
 	"verifharness/e9"
 	"verifharness/report"
 	"verifharness/run"
@@ -97,6 +98,21 @@ func main() {
 		}
 		eng = e
 		sweep = func() { e6.Sweep(e, *tier, *seed, res); res.DriverLines = d.Sent }
+	case "e7":
+		d, err := drv.Start(*driver, "e7")
+		if err != nil {
+			fmt.Fprintln(os.Stderr, err)
+			os.Exit(2)
+		}
+		defer d.Close()
+		e := e7.New(d)
+		defer e.Close()
+		if *out != "" {
+			e.CurFile = *out + ".cur"
+			defer os.Remove(e.CurFile)
+		}
+		eng = e
+		sweep = func() { e7.Sweep(e, *tier, *seed, res); res.DriverLines = d.Sent }
 	case "e9":
 		e := e9.New(*serverBin)
 		defer e.Close()
